@@ -142,6 +142,11 @@ def variants():
     v.append(("not_followed_by", dict(group=4, times=-1)))
     v.append(("followed_by_any", dict(group=5, times=-3, loop=False, optional=False, npred=2)))
     v.append(("not_followed_by_any", dict(group=6, times=0, npred=2)))
+    # lists mixing bare callables and predicate objects, in every order
+    v.append(("followed_by_any", dict(group=5, times=1, loop=False, optional=False, npred=2, mix="ic")))
+    v.append(("followed_by_any", dict(group=5, times=1, loop=False, optional=False, npred=3, mix="cic")))
+    v.append(("not_followed_by_any", dict(group=6, times=1, npred=2, mix="ic")))
+    v.append(("not_followed_by_any", dict(group=6, times=1, npred=3, mix="icc")))
     v.append(("precondition", dict()))
     v.append(("haltcondition", dict()))
     return v
@@ -153,6 +158,7 @@ VARS = variants()
 def real_build(name, single, seq):
     from bobocep.cep.phenom.pattern.builder import BoboPatternBuilder
     from bobocep.cep.phenom.pattern.pattern import BoboPatternError, BoboPatternBlockError
+    from bobocep.cep.phenom.pattern.predicate import BoboPredicate, BoboPredicateCall
     pred = lambda e, h: True   # noqa
     try:
         b = BoboPatternBuilder(name=name, singleton=single)
@@ -163,7 +169,9 @@ def real_build(name, single, seq):
             kw = dict(kw)
             if "npred" in kw:
                 n = kw.pop("npred")
-                getattr(b, m)(predicates=[pred] * n, group=PL.gname(kw.pop("group")), **kw)
+                mix = kw.pop("mix", "c" * n)        # c: a bare callable, i: a BoboPredicate instance
+                plist = [pred if c == "c" else BoboPredicateCall(lambda e, h: True) for c in mix]
+                getattr(b, m)(predicates=plist, group=PL.gname(kw.pop("group")), **kw)
             elif m in ("precondition", "haltcondition"):
                 getattr(b, m)(pred)
             else:
@@ -176,7 +184,8 @@ def real_build(name, single, seq):
         return [2]
     out = [0, len(p.blocks)]
     for blk in p.blocks:
-        out += [len(blk.predicates), PL.code_of(blk.group) if blk.group else 0, int(blk.strict), int(blk.loop), int(blk.negated), int(blk.optional)]
+        out += [len(blk.predicates), sum(1 for q in blk.predicates if isinstance(q, BoboPredicate)),
+                PL.code_of(blk.group) if blk.group else 0, int(blk.strict), int(blk.loop), int(blk.negated), int(blk.optional)]
     return out + [len(p.preconditions), len(p.haltconditions), int(p.singleton)]
 
 
@@ -203,7 +212,8 @@ def bop_coq(m, kw):
 
 PREAMBLE = """
 Definition enc_blk (b : block ev) : list Z :=
-  [n2z (length (b_preds b)); b_group b; b2z (b_strict b); b2z (b_loop b); b2z (b_neg b); b2z (b_opt b)].
+  [n2z (length (b_preds b)); n2z (length (b_preds b)) (* every entry is a predicate object *);
+   b_group b; b2z (b_strict b); b2z (b_loop b); b2z (b_neg b); b2z (b_opt b)].
 Definition run_C19_build (inp : nat * bool * list (bop ev)) : list Z :=
   let '(nl, single, os) := inp in
   match build ev 1 nl single os with
@@ -291,9 +301,9 @@ def run(ctx, res):
                       "not_followed_by": (1, 0, 0, 1, 0),
                       "followed_by_any": (kw.get("npred", 1), 0, kw.get("loop", False), 0, kw.get("optional", False)),
                       "not_followed_by_any": (kw.get("npred", 1), 0, 0, 1, 0)}.get(m)
-                if fl:
-                    exp += [[fl[0], kw["group"], int(fl[1]), int(fl[2]), int(fl[3]), int(fl[4])]] * reps
-            got = [out[2 + 6 * i: 8 + 6 * i] for i in range(out[1])]
+                if fl:      # (number of predicates, all of them predicate objects, group, strict, loop, negated, optional)
+                    exp += [[fl[0], fl[0], kw["group"], int(fl[1]), int(fl[2]), int(fl[3]), int(fl[4])]] * reps
+            got = [out[2 + 7 * i: 9 + 7 * i] for i in range(out[1])]
             if got != exp:
                 res.failures.append(dict(signature="builder-flags", what="builder produced blocks %s, documented %s" % (got, exp),
                                          case=dict(name=name, single=single, seq=seq)))
